@@ -360,7 +360,7 @@ def legs(tier):
                    bound='acq_mat on all strings, PauliPolynomial@PauliPolynomial on the whole group'))
     out.append(Leg('combine', fn_combine, [[N, i] for N in (1, 2) for i in range(4 ** N)], chunk=1,
                    bound='N<=2: all ordered triples of strings x 64 phase patterns x 8 selections'))
-    tNs = (1, 2) if tier == 'quick' else (1, 2, 3)
+    tNs = (1, 2, 3)
     out.append(Leg('torch_pairs', fn_torch_pairs, [[N, i] for N in tNs for i in range(4 ** N)], chunk=2,
                    bound='torchclifford N in %s: all ordered pairs' % (tNs,)))
     out.append(Leg('batch_torch', fn_batch, [[N, 'torch'] for N in (1, 2)], chunk=1, parallel=False))
